@@ -396,3 +396,58 @@ package astits
 //@   ensures [C12,C01,C02] data: err == nil ==> len(d.Data) == dEnd - dStart && bytesOf(d.Data) == old(bytesOf(i.bs[dStart:dEnd]))
 //@   ensures [C12,C16] datafresh: err == nil ==> fresh(d.Data)
 //@   ensures [C12] hdr: err == nil ==> d.Header.StreamID == sid && d.Header.PacketLength == plen
+
+// ---------------------------------------------------------------------------
+// Writers. wN(w)/wD(w)/wF(w): bytes accepted by w's sink, their values, failed sink writes.
+
+//@ func writePacketHeader
+//@   requires aligned(w)
+//@   modifies w.cache, w.cacheLen, sinkN(w.w), sinkData(w.w), sinkFails(w.w)
+//@   let n0 = old(wN(w))
+//@   ensures [C11,C04] n: written == 3
+//@   ensures [C11,C04] count: retErr == nil ==> wN(w) == n0 + 3 && aligned(w)
+//@   ensures [C18] surfaced: wF(w) != old(wF(w)) ==> retErr != nil
+//@   ensures [C11] b0: retErr == nil ==> wD(w)[n0] == u8(h.TransportErrorIndicator) << 7 | u8(h.PayloadUnitStartIndicator) << 6 | u8(h.TransportPriority) << 5 | u8(h.PID >> 8 & 0x1f)
+//@   ensures [C11] b1: retErr == nil ==> wD(w)[n0 + 1] == u8(h.PID & 0xff)
+//@   ensures [C11] b2: retErr == nil ==> wD(w)[n0 + 2] == (h.TransportScramblingControl & 3) << 6 | u8(h.HasAdaptationField) << 5 | u8(h.HasPayload) << 4 | h.ContinuityCounter & 0x0f
+//@   ensures [C11,C04] prefix: sub(wD(w), 0, n0) == old(sub(wD(w), 0, wN(w)))
+
+//@ func writePCR
+//@   requires aligned(w) && cr != nil
+//@   modifies writer(w)
+//@   let n0 = old(wN(w))
+//@   let V = encPCR(cr.Base, cr.Extension)
+//@   ensures [C11,C04] n: result0 == 6 && wN(w) == n0 + 6 && aligned(w) && result1 == nil
+//@   ensures [C11] bytes: wb(w, n0, 0) == u8(V >> 40) && wb(w, n0, 1) == u8(V >> 32) && wb(w, n0, 2) == u8(V >> 24) && wb(w, n0, 3) == u8(V >> 16) && wb(w, n0, 4) == u8(V >> 8) && wb(w, n0, 5) == u8(V)
+//@   ensures [C11,C04] prefix: wPrefix(w)
+//@   ensures [C18] surfaced: wF(w) != old(wF(w)) ==> result1 != nil
+
+//@ func writePTSOrDTS
+//@   requires aligned(w) && cr != nil
+//@   modifies writer(w)
+//@   let n0 = old(wN(w))
+//@   let V = encTS33(flag, cr.Base)
+//@   ensures [C12,C11,C04] n: bytesWritten == 5 && wN(w) == n0 + 5 && aligned(w) && retErr == nil
+//@   ensures [C12,C11] bytes: wb(w, n0, 0) == u8(V >> 32) && wb(w, n0, 1) == u8(V >> 24) && wb(w, n0, 2) == u8(V >> 16) && wb(w, n0, 3) == u8(V >> 8) && wb(w, n0, 4) == u8(V)
+//@   ensures [C12,C11,C04] prefix: wPrefix(w)
+//@   ensures [C18] surfaced: wF(w) != old(wF(w)) ==> retErr != nil
+
+//@ func writeESCR
+//@   requires aligned(w) && cr != nil
+//@   modifies writer(w)
+//@   let n0 = old(wN(w))
+//@   let V = encESCR(cr.Base, cr.Extension)
+//@   ensures [C12,C04] n: result0 == 6 && wN(w) == n0 + 6 && aligned(w) && result1 == nil
+//@   ensures [C12] bytes: wb(w, n0, 0) == u8(V >> 40) && wb(w, n0, 1) == u8(V >> 32) && wb(w, n0, 2) == u8(V >> 24) && wb(w, n0, 3) == u8(V >> 16) && wb(w, n0, 4) == u8(V >> 8) && wb(w, n0, 5) == u8(V)
+//@   ensures [C12,C04] prefix: wPrefix(w)
+//@   ensures [C18] surfaced: wF(w) != old(wF(w)) ==> result1 != nil
+
+//@ func writeDSMTrickMode
+//@   requires aligned(w) && m != nil && m.TrickModeControl < 8
+//@   modifies writer(w)
+//@   let n0 = old(wN(w))
+//@   let c = m.TrickModeControl & 7
+//@   ensures [C12,C04] n: result0 == 1 && wN(w) == n0 + 1 && aligned(w) && result1 == nil
+//@   ensures [C12] byte: wb(w, n0, 0) == c << 5 | ite(c == 0 || c == 3, (m.FieldID & 3) << 3 | u8(m.IntraSliceRefresh == 1) << 2 | m.FrequencyTruncation & 3, ite(c == 2, (m.FieldID & 3) << 3 | 7, ite(c == 1 || c == 4, m.RepeatControl & 0x1f, 0x1f)))
+//@   ensures [C12,C04] prefix: wPrefix(w)
+//@   ensures [C18] surfaced: wF(w) != old(wF(w)) ==> result1 != nil
